@@ -92,8 +92,8 @@ def rule_resolve(ctx, py):
         ok = sp and all(pyfe.src(n.value) == "self.system.network.get_species_index(species)" for n in sp)
         ctx.check(ok, R, f, f._qual, "%s: species resolved by the network" % name, "", "species not resolved through "
                   "get_species_index(species)")
-        guard = [n for n in ast.walk(f) if isinstance(n, ast.If) and pyfe.src(n.test) == "isnone(species_index)" and
-                 any(isinstance(b, ast.Raise) for b in n.body)]
+        guard = [n for n in ast.walk(f) if isinstance(n, ast.If) and any(isinstance(b, ast.Raise) for b in n.body) and
+                 any(a_ in (("species_index is None", True), ("species_index == None", True)) for a_ in pya.atoms(n.test, True))]
         ctx.check(len(guard) == len(sp), R, f, f._qual, "%s: unknown species raises" % name, "", "a None species index "
                   "is used")
         if has_cell:
